@@ -37,7 +37,7 @@ REGISTRY = {
         "quick": {"workers": 16, "n_hist": 320},
         "thorough": {"workers": 16, "n_hist": 30000}}},
     "C06": {"level": "exploration", "tiers": {
-        "quick": {"workers": 16, "n_hist": 1200},
+        "quick": {"workers": 16, "n_hist": 1600},
         "thorough": {"workers": 16, "n_hist": 120000}}},
     "C13": {"level": "exploration", "tiers": {
         "quick": {"workers": 16, "n_hist": 1600},
